@@ -224,6 +224,41 @@ def timeZone (cs : List Char) : Option TzOut :=
           | some z => z
           | none => none
 
+/-- The calendar annotation an ISO string of any Temporal type carries (ParseTemporalCalendarString, first branch):
+    `none` = the text is no such string; `some none` = it is one and has no calendar annotation. The goals and their
+    rules are those of `timeZone`. -/
+def calendarOfString (cs : List Char) : Option (Option (List Char)) :=
+  match dateTime cs with
+  | some r => some r.calendar
+  | none =>
+    let timeGoal : Option (Option (List Char)) := do
+      let (hasT, body) := match cs with
+        | 'T' :: r => (true, r) | 't' :: r => (true, r) | r => (false, r)
+      let (_, rest) ← time body
+      let rest : List Char := match offsetOrZ rest with
+        | some (_, r') => r'
+        | none => rest
+      let tl ← tail rest
+      let cal ← calendarOf tl.anns
+      let timeText := body.take (body.length - rest.length)
+      let ambiguous := !hasT && ((match monthDaySyntactic timeText with | some (_, []) => true | _ => false) ||
+                                 (match yearMonthShort timeText with | some (_, []) => true | _ => false))
+      if ambiguous then none else some cal
+    let ym : Option (Option (List Char)) := do
+      let (_, rest) ← yearMonthShort cs
+      let tl ← tail rest
+      calendarOf tl.anns
+    let md : Option (Option (List Char)) := do
+      let (_, rest) ← monthDayShort cs
+      let tl ← tail rest
+      calendarOf tl.anns
+    match timeGoal with
+    | some c => some c
+    | none =>
+      match ym with
+      | some c => some c
+      | none => md
+
 def hexDigit (n : Nat) : Char := if n < 10 then Char.ofNat (48 + n) else Char.ofNat (87 + n)
 
 /-- offset zones by their identifier, names as the hexadecimal UTF-8 bytes (they may hold any character) -/
